@@ -1,5 +1,7 @@
 package csidh
 
+import "io"
+
 // C10: key import never panics, for every length
 //
 //zz: prop=C10 tier=quick backend=bv
@@ -37,4 +39,40 @@ func ZZ_C11_csidh_PrivateKey_Import_into_used() {
 	zzFill("previous", &used.e)
 	zzAssert(used.Import(key) && fresh.Import(key), "import succeeds")
 	zzAssert(used.e == fresh.e, "import into a used key = import into a fresh key")
+}
+
+// C11: DeriveSecret does not change the value of its operands pub and prv (only out).  The class
+// group action and the supersingularity test are replaced by their contracts (set "csidhuf"):
+// groupAction(pub, prv) replaces pub.a by a function of (pub.a, prv.e) - which is what the real
+// routine is documented to do ("group action of prv.e on the curve pub.A", result in pub) - and
+// Validate returns an arbitrary verdict.
+
+//zz:replace dh/csidh.groupAction set=csidhuf
+func zzStubGroupAction(pub *PublicKey, prv *PrivateKey, rng io.Reader) {
+	in := pub.a
+	zzUFObj("csidh.action", &pub.a, &in, &prv.e)
+}
+
+//zz:replace dh/csidh.Validate set=csidhuf
+func zzStubValidate(pub *PublicKey, rng io.Reader) bool { return zzFreshBool() }
+
+//zz: prop=C11 tier=quick backend=bv use=csidhuf timeout=120
+func ZZ_C11_csidh_DeriveSecret_leaves_operands_unchanged() {
+	if !zzSymbolic() {
+		zzModelOnly() // the group action is an uninterpreted function here
+	}
+	var pub PublicKey
+	var prv PrivateKey
+	zzFill("pub", &pub.a)
+	zzFill("prv", &prv.e)
+	pub0, prv0 := pub.a, prv.e
+	var out, out2 [64]byte
+	ok := DeriveSecret(&out, &pub, &prv, nil)
+	zzAssert(pub.a == pub0, "DeriveSecret leaves the peer's public key unchanged")
+	zzAssert(prv.e == prv0, "DeriveSecret leaves the private key unchanged")
+	// and a second derivation with the same operands gives the same secret
+	ok2 := DeriveSecret(&out2, &pub, &prv, nil)
+	if ok && ok2 {
+		zzAssert(out == out2, "deriving twice from the same operands gives the same secret")
+	}
 }
